@@ -743,6 +743,8 @@ class Exec:
             if isinstance(val, SArr):
                 return st.alloc(SList(n, lambda kk, val=val, k=k: SArr(tuple(subst(s, [(k, kk)]) for s in val.shape),
                                                                        lambda *ix: subst(val.get(*ix), [(k, kk)]), val.kind), val.type()))
+            if isinstance(val, SFun) and val.kind == 'uf':
+                return st.alloc(SList(n, lambda kk, val=val, k=k: SFun('uf', role=val.role, index=subst(val.index, [(k, kk)])), TOpaque('callable')))
             raise Unsupported('list comprehension producing %r' % (type(val),))
         raise Unsupported('list comprehension with filter / several generators')
 
@@ -801,6 +803,8 @@ class Exec:
             return r
         if f.kind == 'py':
             return f.fn(args, kw, st, node)
+        if f.kind == 'uf':
+            return self.np.call_user_callable(f, args, kw, st, node)
         raise Unsupported('call of function value ' + f.kind)
 
     modname_override = None
